@@ -132,7 +132,27 @@ func c15(c *Ctx) {
 	c.Res.Rule = "every string is classified by a three-valued oracle (must-accept with address and port / must-reject / don't-care) and fed to the four role parsers (Parse*, Set, UnmarshalJSON), accepted values are formatted and parsed back; exhaustive over all strings up to length L on the alphabet {0 1 2 5 6 . : x space}; all 65536 ports per role; random IPv4 x port classes; single character mutations of valid addresses at every position; distinct = distinct (role, string) pairs judged (don't-care excluded)"
 	r := c.Rng("main")
 	var caseNo int64
+	// first use of the four parsers by 16 goroutines at once (a fresh process per batch)
+	stages := []func(int){}
+	for ri := range addrRoles {
+		role := addrRoles[ri]
+		stages = append(stages, func(g int) {
+			for k := 0; k < 10; k++ {
+				in := fmt.Sprintf("192.168.%d.%d:%d", g, k, 50001+k)
+				want := netip.MustParseAddrPort(in)
+				c.Res.Eval(1)
+				if got, err := role.parse(in); err != nil || got != want {
+					c.Res.Violate("C15:first-use:"+role.name, fmt.Sprintf("%s address %q parsed as %v, %v when 12 goroutines used the parser for the first time at the same moment", role.name, in, got, err), map[string]any{"input": in}, -10)
+					return
+				}
+			}
+		})
+	}
+	firstUse(c, "C15:first-use", "an address parser", 12, stages...)
 
+	if c.Mode == "firstuse" {
+		return
+	}
 	check := func(role addrRole, s string, tag string) {
 		caseNo++
 		verdict, ip, port := classify(role, s)
